@@ -288,6 +288,10 @@ class Model(object):
     def global_name(self, name, st):
         return None
 
+    def with_exit(self, val, st, node):
+        """called when a `with` block whose context manager evaluated to val is left (may emit events)"""
+        return None
+
     def exc_tokens_any(self):
         return ['KeyError', 'TypeError', GENERIC, BASEONLY]
 
@@ -712,26 +716,33 @@ class Engine(object):
         return outs
 
     def st_With(self, s, st):
-        outs = [Out(NEXT, st)]
+        outs = [(Out(NEXT, st), ())]
         for item in s.items:
             nxt = []
-            for o in outs:
+            for o, vals in outs:
                 if o.kind != NEXT:
-                    nxt.append(o)
+                    nxt.append((o, vals))
                     continue
 
                 def then(st2, v, item=item):
+                    st2.facts['__withval'] = v
                     if item.optional_vars is not None:
                         return self.assign(item.optional_vars, ('ctx', v), st2)
                     return [Out(NEXT, st2)]
-                nxt.extend(self._from_results(self.ev(item.context_expr, o.st), then))
+                for o2 in self._from_results(self.ev(item.context_expr, o.st), then):
+                    v = o2.st.facts.pop('__withval', None) if o2.kind == NEXT else None
+                    nxt.append((o2, vals + ((v,) if v is not None else ())))
             outs = nxt
         res = []
-        for o in outs:
+        for o, vals in outs:
             if o.kind != NEXT:
                 res.append(o)
             else:
-                res.extend(self.exec_block(s.body, o.st))
+                for bo in self.exec_block(s.body, o.st):
+                    # leaving the block (normally or not) exits the context managers, innermost first
+                    for v in reversed(vals):
+                        self.model.with_exit(v, bo.st, s)
+                    res.append(bo)
         return res
 
     def st_Try(self, s, st):
@@ -1008,7 +1019,9 @@ class Engine(object):
                 else:
                     kk = vals.pop(0)
                     items.append((kk, vals.pop(0)))
-            out.append(R(r.st, ('dict', tuple(items))))
+            v = ('dict', tuple(items))
+            h = self.model.literal(v, r.st, n)
+            out.append(R(r.st, h if h is not None else v))
         return out
 
     def ex_JoinedStr(self, n, st):
@@ -1450,7 +1463,10 @@ class Engine(object):
                 outs.extend(self.loop_over(r.val, r.st, g.target, None, None, n, self.comp_unroll, body_fn=body_fn))
             return outs
 
+        self._comp_conds = ()
         shape = self._comp_shape(n, st, kind)
+        # a comprehension with an `if` clause may yield fewer elements than its source: marked in the term (with the filter conditions)
+        filt = (('filtered',) + tuple(self._comp_conds),) if any(g.ifs for g in n.generators) else ()
         # comprehension has its own scope: restore shadowed names afterwards
         names = set()
         for g in gens:
@@ -1479,11 +1495,11 @@ class Engine(object):
                     o.st.env[k] = v
             if o.kind == NEXT:
                 o.st.facts.pop('__comp_elt', None)
-                res.append(R(o.st, ('comp', kind, shape)))
+                res.append(R(o.st, ('comp', kind, shape) + filt))
             elif o.kind == RAISE:
                 res.append(R(o.st, None, o.exc, o.line))
             else:
-                res.append(R(o.st, ('comp', kind, shape)))
+                res.append(R(o.st, ('comp', kind, shape) + filt))
         return res
 
     def _comp_shape(self, n, st, kind):
@@ -1500,6 +1516,12 @@ class Engine(object):
                 if not outs:
                     return ('opaque', 'noelt')
                 dry = outs[-1].st
+                for cond in g.ifs:
+                    try:
+                        cr = [r for r in self.ev(cond, dry.fork()) if r.exc is None]
+                    except AnalysisError:
+                        cr = []
+                    self._comp_conds = self._comp_conds + ((cr[-1].val if cr else ('opaque', 'cond')),)
             if kind == 'dict':
                 rs = [r for r in self.ev_seq([n.key, n.value], dry) if r.exc is None]
                 return ('tuple', tuple(rs[-1].val)) if rs else ('opaque', 'noelt')
